@@ -595,6 +595,9 @@ def check_krondot(ctx, fi):
     tr = [c for c in calls_in(fi.node) if isinstance(c.func, ast.Attribute) and c.func.attr == 'transpose']
     from ..srcmodel import alpha_text, alpha_of
     ok = bool(tr) and elim is not None and alpha_text(tr[0].args[0]) == alpha_of("['%s-answer' % a for a in " + elim + ']')
+    skipping = krondot_skips(ctx, fi, loops, elim, m, tr) if (not ok and tr and elim is not None) else None
+    if skipping is not None:
+        ok = skipping
     ctx.ob('requested-order', fi, tr[0] if tr else fi.node, ok, 'the result is transposed to the answer axes in domain order')
     # the normaliser the answers are divided by is the partition function of the model alone: it must not depend on the query
     # matrices (flow-sensitive dependency walk: `factors` depends on them only after the query factors have been appended)
@@ -640,6 +643,47 @@ def check_krondot(ctx, fi):
                            % (U(d), 'depends on the query matrices (the answers are rescaled to sum to the total whatever the queries are)'
                               if mentions(d) else 'does not depend on the query matrices'), construct='normaliser of krondot')
     walk(fi.body)
+
+
+def krondot_skips(ctx, fi, loops, elim, m, tr):
+    """a query that is a single row of ONES only sums its attribute out - the elimination does that anyway - so its factor may be left out:
+           for attr, Q in zip(attrs, matrices):  if Q.shape[0] == 1 and (Q == 1).all(): continue;  ..append(factor);  answers.append(name)
+           result.transpose(answers) ... .reshape(tuple(Q.shape[0] for Q in matrices))
+    The answer axes kept are a sub-sequence of the domain order, and the reshape only re-inserts the length-1 axes.  The test must say ALL ONES:
+    `Q.all()` (no zero entry) also skips weighted single-row queries, which are then answered as the total.  -> True / None (not this shape)"""
+    src = ctx.repo.func(GM, 'GraphicalModel.krondot')          # the source form: the skip is a leading `if ..: continue`
+    loops = [s_ for s_ in walk_shallow(src.node) if isinstance(s_, ast.For)]
+    tr = [c for c in calls_in(src.node) if isinstance(c.func, ast.Attribute) and c.func.attr == 'transpose']
+    fi = src
+    lp = next((l for l in loops if U(l.iter).replace(' ', '') == 'zip(%s,%s)' % (elim, m)), None)
+    if lp is None or not isinstance(lp.target, ast.Tuple) or len(lp.target.elts) != 2 or not tr:
+        return None
+    a, Q = [U(x) for x in lp.target.elts]
+    skips = [i for i in lp.body if isinstance(i, ast.If) and not i.orelse and len(i.body) == 1 and isinstance(i.body[0], ast.Continue)]
+    if len(skips) != 1 or lp.body[0] is not skips[0]:
+        return None
+    t = skips[0].test
+    parts = [U(x).replace(' ', '') for x in (t.values if isinstance(t, ast.BoolOp) and isinstance(t.op, ast.And) else [t])]
+    one_row = '%s.shape[0]==1' % Q in parts
+    ones = any(x in ('(%s==1).all()' % Q, 'np.all(%s==1)' % Q, '(%s==1.0).all()' % Q, 'np.array_equal(%s,np.ones(%s.shape))' % (Q, Q)) for x in parts)
+    nonzero = any(x in ('%s.all()' % Q, 'np.all(%s)' % Q, '(%s!=0).all()' % Q) for x in parts)
+    if not one_row or not (ones or nonzero) or len(parts) != 2:
+        raise AnalysisError('GraphicalModel.krondot: a query is skipped under `%s`, which is in no recognised form' % U(t)[:80])
+    ctx.ob('ve-equations', fi, skips[0], ones, 'a query may be left out of the elimination only when it is a single row of ONES (it then just sums its attribute '
+           'out); the test is `%s`%s' % (U(t), '' if ones else ': a single row WITHOUT A ZERO also passes - a weighted query such as [[1, 2, 3]] is answered as the total'),
+           construct='skipped query factor of krondot')
+    # the answer axes: appended in the same loop, after the skip
+    A = U(tr[0].args[0])
+    apps = [c for c in ast.walk(lp) if isinstance(c, ast.Call) and U(c.func) == A + '.append' and len(c.args) == 1 and U(c.args[0]).replace(' ', '') == "'%s-answer'%" + a]
+    inits = [s_ for s_ in fi.body if isinstance(s_, ast.Assign) and len(s_.targets) == 1 and U(s_.targets[0]) == A and U(s_.value) == '[]']
+    rets = [r for r in ast.walk(fi.node) if isinstance(r, ast.Return) and r.value is not None]
+    reshaped = any(isinstance(c, ast.Call) and isinstance(c.func, ast.Attribute) and c.func.attr == 'reshape' and len(c.args) == 1 and
+                   U(c.args[0] if not isinstance(c.args[0], ast.Name) else next((s_.value for s_ in fi.body if isinstance(s_, ast.Assign) and U(s_.targets[0]) == c.args[0].id), c.args[0])
+                     ).replace(' ', '').replace('((', '(').replace('))', ')') in ('tuple(%s.shape[0]for%sin%s)' % (Q, Q, m), 'tuple(Q.shape[0]forQin%s)' % m, 'tuple(M.shape[0]forMin%s)' % m)
+                   for r in rets for c in ast.walk(r.value))
+    if len(apps) != 1 or len(inits) != 1 or not reshaped:
+        raise AnalysisError('GraphicalModel.krondot: queries are skipped but the answer axes / final shape are in no recognised form')
+    return True
 
 
 def check_cache(ctx):
